@@ -106,6 +106,24 @@ func judgeBig(c *Ctx, bc *BigCase) {
 }
 
 func replayC01(c *Ctx, rule string, raw json.RawMessage) {
+	if rule == "C01.population" {
+		var pc struct{ Index, N, Dropped int }
+		if err := json.Unmarshal(raw, &pc); err != nil {
+			fmt.Println("bad case:", err)
+			return
+		}
+		pop := genPopulation(c, "C01", pc.Index, pc.N)
+		list := pop
+		if pc.Dropped > 0 {
+			list = append(append([]string{}, pop[:pc.Dropped-1]...), pop[pc.Dropped:]...)
+		}
+		got := c.Sat(strings.Join(pop, " AND "), list)
+		fmt.Printf("Satisfies(AND of %d references, %d entries) = %s, want %v\n", len(pop), len(list), got, pc.Dropped == 0)
+		if !got.Clean() || got.OK != (pc.Dropped == 0) {
+			c.Violation("eval-population", "C01.population", pc, "replayed")
+		}
+		return
+	}
 	if rule == "C01.big" {
 		var bc BigCase
 		if err := json.Unmarshal(raw, &bc); err != nil {
@@ -255,6 +273,8 @@ func runC01(c *Ctx, phase string) {
 	c.Floor("big_expected_true", 50)
 	c.Floor("big_expected_false", 50)
 	c.Floor("trees_with_64plus_alternatives", 20)
+	c.Floor("big_huge_product", int64(c.Pick(0, 32)))
+	c.Floor("population_calls", int64(c.Pick(48, 800)))
 	for _, s := range []string{"left_chain", "right_chain", "balanced", "or_and_or", "andchain_x_or", "random", "long_chain"} {
 		c.Floor("shape_"+s, 10)
 	}
@@ -306,8 +326,7 @@ func runC01(c *Ctx, phase string) {
 	}
 	// (iv) terms whose canonical strings are concatenations / prefixes of one another (keys built by joining strings without
 	// a separator, prefix-based lookups): complete truth tables over a fixed pool of such references and ids
-	collide := []gen.Term{{Ref: true, LicRef: "a"}, {Ref: true, LicRef: "b"}, {Ref: true, LicRef: "aLicenseRef-b"}, {Ref: true, LicRef: "ab"},
-		{Ref: true, LicRef: "a", DocRef: "d"}, {Ref: true, LicRef: "LicenseRef-a", DocRef: "d"}, {ID: "MIT"}, {ID: "MIT-0"}, {ID: "MIT", Exc: c.U.Exceptions[0]}}
+	collide := collisionPool(c.U)
 	for i := 0; i < c.Pick(600, 6000); i++ {
 		if !c.Mine(i) {
 			continue
@@ -338,6 +357,35 @@ func runC01(c *Ctx, phase string) {
 			judgeBig(c, genBigCase(c, "C01", i))
 		}
 	}
+	// (v) products beyond 2^16 alternatives (an implementation may switch strategy by predicted size): AND of 17 two-way groups
+	// and 1..3 single terms in every arrangement, incl. "... AND x AND (c OR d)"; one library call costs minutes (D10), so thorough only
+	for i := 0; i < c.Pick(0, 32); i++ { // thorough only: 0.5..2 min per call
+		if c.Mine(i) {
+			judgeBig(c, genHugeProduct(c, i))
+		}
+	}
+	// (vi) populations: AND of 5000 distinct random references against the list of all of them / all but one
+	for i := 0; i < c.Pick(24, 400); i++ {
+		if !c.Mine(i) {
+			continue
+		}
+		pop := genPopulation(c, "C01", i, 5000)
+		r := gen.NewRand(c.Seed, 0xC01D, uint64(i))
+		text := strings.Join(pop, " AND ")
+		miss := r.Intn(len(pop))
+		less := append(append([]string{}, pop[:miss]...), pop[miss+1:]...)
+		for k, list := range [][]string{pop, less} {
+			want := k == 0
+			got := c.Sat(text, list)
+			c.Inc("population_calls")
+			if !got.Clean() || got.OK != want {
+				c.Violation("eval-population", "C01.population", map[string]any{"tag": "C01", "index": i, "n": 5000, "dropped": k * (miss + 1)},
+					"Satisfies(AND of %d distinct references, the same references%s) = %s, want %v; expression starts %q", len(pop),
+					map[bool]string{true: "", false: " without " + pop[miss]}[want], got, want, trunc(text, 100))
+			}
+		}
+		c.Distinct(gen.HashStr("pop", text))
+	}
 	// (ii) random trees
 	nRandom := c.Pick(8000, 60000)
 	for i := 0; i < nRandom; i++ {
@@ -353,4 +401,78 @@ func runC01(c *Ctx, phase string) {
 			c.Sample(map[string]any{"expression": string(tc.Text), "terms": tc.LeafTexts(), "allowed_lists": "all 2^k-1 subsets + 4 lists with extras"})
 		}
 	}
+}
+
+// genHugeProduct builds an AND of 17 (a OR b) groups and 1..3 single terms over distinct plain ids: 2^17 alternatives.
+func genHugeProduct(c *Ctx, i int) *BigCase {
+	r := gen.NewRand(c.Seed, 0xC01B, uint64(i))
+	const groups = 17
+	singles := 1 + r.Intn(3)
+	terms := distinctTerms(c.U, r, 2*groups+singles, true)
+	type item struct{ a, b int } // b < 0: single term
+	var items []item
+	for g := 0; g < groups; g++ {
+		items = append(items, item{2 * g, 2*g + 1})
+	}
+	for s := 0; s < singles; s++ {
+		items = append(items, item{2*groups + s, -1})
+	}
+	switch i % 3 {
+	case 0: // single terms first, then the groups
+		items = append(items[groups:], items[:groups]...)
+	case 1: // groups, the single terms, one group last
+		items = append(items[1:], items[0])
+	default:
+		perm := r.Perm(len(items))
+		sh := make([]item, len(items))
+		for x, y := range perm {
+			sh[x] = items[y]
+		}
+		items = sh
+	}
+	var tree *gen.Node
+	for _, it := range items {
+		n := gen.LeafN(it.a)
+		if it.b >= 0 {
+			n = gen.Or(gen.LeafN(it.a), gen.LeafN(it.b))
+		}
+		if tree == nil {
+			tree = n
+		} else {
+			tree = gen.And(tree, n)
+		}
+	}
+	leaf := termTexts(terms)
+	bc := &BigCase{Mode: "huge-product", Terms: terms, Tree: tree, Text: ev.QS(tree.Render(leaf, gen.RenderOpt{Paren: gen.ParenMinimal}))}
+	drop := map[int]bool{}
+	last := items[len(items)-1]
+	switch r.Intn(6) {
+	case 0: // everything allowed
+	case 1: // one member of each group
+		for g := 0; g < groups; g++ {
+			drop[2*g+r.Intn(2)] = true
+		}
+	case 2: // a single term missing
+		drop[2*groups+r.Intn(singles)] = true
+	case 3: // a whole group missing
+		g := r.Intn(groups)
+		drop[2*g], drop[2*g+1] = true, true
+	case 4: // the last operand missing (whole group or single term)
+		drop[last.a] = true
+		if last.b >= 0 {
+			drop[last.b] = true
+		}
+	default: // only the last operand allowed... plus the single terms
+		for g := 0; g < groups; g++ {
+			if 2*g != last.a {
+				drop[2*g], drop[2*g+1] = true, true
+			}
+		}
+	}
+	for j, t := range terms {
+		if !drop[j] {
+			bc.Allowed = append(bc.Allowed, t)
+		}
+	}
+	return bc
 }
